@@ -30,7 +30,8 @@ type C15Scenario struct {
 	Knobs   hx.SimKnobs `json:"knobs"`
 	Workers int         `json:"workers"`
 	Deep    int         `json:"deep"`
-	LRUCap  int64       `json:"lru_cap"` // 0: map facade; >0: LRU facade of that capacity
+	LRUCap  int64       `json:"lru_cap"`   // 0: map facade; >0: LRU facade of that capacity
+	Gen     bool        `json:"cache_gen"` // the group is built with NewWorkGrp and a cache generator instead of the two convenience constructors
 	Callers [][]muxOp   `json:"callers"`
 	// fault plan: callback kind -> 1-based invocation numbers that fail (atomically, without effect)
 	Faults   map[string][]int `json:"faults"`
@@ -45,6 +46,7 @@ func drawC15(rt *rapid.T) interface{} {
 	sc.Workers = rapid.SampledFrom([]int{1, 2, 3}).Draw(rt, "workers")
 	sc.Deep = rapid.SampledFrom([]int{2, 8, 64}).Draw(rt, "deep")
 	sc.LRUCap = rapid.SampledFrom([]int64{0, 0, 1, 2, 3}).Draw(rt, "lrucap")
+	sc.Gen = rapid.IntRange(0, 3).Draw(rt, "cachegen") == 0
 	sc.CbYields = rapid.IntRange(0, 2).Draw(rt, "cby")
 	sc.Sized = rapid.Bool().Draw(rt, "sized")
 	nk := rapid.IntRange(1, 4).Draw(rt, "nkeys")
@@ -192,7 +194,15 @@ func runC15(t *testing.T, sci interface{}, keepLog bool) *hx.Outcome {
 			}
 		}
 		var g *mux.WorkerGrp
-		if sc.LRUCap > 0 {
+		if sc.Gen {
+			g = mux.NewWorkGrp(func() mux.CacheFacade {
+				if sc.LRUCap > 0 {
+					return mux.NewFacadeLRU(sc.LRUCap)
+				}
+				return mux.NewFacadeMap()
+			}, mux.WithSize(sc.Workers), mux.WithDeep(sc.Deep))
+			s.Count("group-built-with-cache-generator")
+		} else if sc.LRUCap > 0 {
 			g = mux.NewWorkGrpWithLRU(sc.LRUCap, mux.WithSize(sc.Workers), mux.WithDeep(sc.Deep))
 		} else {
 			g = mux.NewWorkGrpWithMapCache(mux.WithSize(sc.Workers), mux.WithDeep(sc.Deep))
@@ -401,6 +411,10 @@ func runC15(t *testing.T, sci interface{}, keepLog bool) *hx.Outcome {
 								s.Fail("cache-incoherent", "key %d: Get returned v%d (store consulted: %v), the store holds %s", op.Key, sv.Ver, consulted, verStr(cur, has))
 							}
 						}
+						if op.Op == "add" && err == mux.ErrDupKey && st.calls["add"] == addsBefore && !has {
+							// refused as "already cached" without asking the store: the cache claims a value for a key the store does not hold
+							s.Fail("cache-incoherent", "key %d: Add was refused as a duplicate of a cached entry without touching the store, but the store holds nothing for the key", op.Key)
+						}
 						if op.Op == "add" && lastGetOK[op.Key] {
 							s.Count("add-on-cached-key")
 							if err != mux.ErrDupKey || st.calls["add"] != addsBefore {
@@ -500,7 +514,7 @@ func TestC15(t *testing.T) {
 		Stubs:       []string{"backing store (harness map with per-key busy markers and a fault plan per callback kind)", "sync (simsync)", "context.Context (hx.SimCtx)", "goroutine scheduling and select choice (simrt)"},
 		Rule: "scenario = worker count {1,2,3} x queue depth x cache facade (map | LRU capacity 1-3) x 1-5 callers x get/add/update/delete/update-or-add/upsert-then-load/upsert-then-renew over 1-4 keys (incl. negative and MinInt hashes) x per-callback failure plan (load/add/update/upsert/delete fail at drawn invocation numbers) x context cancellation x scheduler knobs/tape; " +
 			"1 caller with up to 30 ops = sequential fault-sequence statement with per-operation audits; non-trivial = >=2 tasks and >=1 switch (or >=3 ops); distinct = distinct event-log hash",
-		Probes:      []string{"op-observed-accepted", "audit-cached", "audit-uncached", "add-on-cached-key", "refused-full-or-closed", "store-fault-load", "store-fault-add", "store-fault-update", "store-fault-upsert", "store-fault-delete"},
+		Probes:      []string{"group-built-with-cache-generator", "op-observed-accepted", "audit-cached", "audit-uncached", "add-on-cached-key", "refused-full-or-closed", "store-fault-load", "store-fault-add", "store-fault-update", "store-fault-upsert", "store-fault-delete"},
 		Assumptions: []string{"store callbacks fail atomically (no partial effect)", "coherence is audited when no operation on the key is in flight (after each operation of single-caller runs; at the end of concurrent runs once the workers are idle)"},
 	})
 }
